@@ -61,6 +61,9 @@ var faultPositions = []faultPos{
 	{"return", " return %E", " return %E", false},
 	{"arg", " f1(%E)", " fb(%E)", false},
 	{"conc", " conc {\n  y = %E\n }", " conc {\n  y = %E\n }", true},
+	{"concfn", " conc {\n  y = 1\n  f1(%E)\n }", " conc {\n  y = 1\n  fb(%E)\n }", false},
+	{"concmeth", " conc {\n  d.PM(%E)\n  y = 1\n }", " conc {\n  d.PB(%E)\n  y = 1\n }", false},
+	{"conc3", " conc {\n  y = 1\n  dd.P.Get(%E)\n }", " conc {\n  y = 1\n  dd.P.GetB(%E)\n }", false},
 }
 
 type stmtFault struct {
@@ -96,6 +99,7 @@ const c09Lib = `
 type In struct{ A int64 }
 
 func (in *In) Get(a int64) int64 { return in.A + a }
+func (in *In) GetB(a bool) int64 { return in.A }
 
 type CD struct {
 	I  int64
@@ -106,6 +110,7 @@ type CD struct {
 }
 
 func (c *CD) PM(a int64) int64 { return c.I + a }
+func (c *CD) PB(a bool) int64  { return c.I }
 
 type world struct {
 	z, ix         int64
@@ -128,6 +133,7 @@ func mkWorld() *world {
 	w.dc.Add("f1", func(a int64) int64 { return a })
 	w.dc.Add("fb", func(a bool) int64 { return 1 })
 	w.dc.Add("boom", func() int64 { panic("boom") })
+	w.dc.Add("dd", &CD{I: 2, P: &In{A: 1}})
 	w.set(w.z, w.ix, w.npnil, w.pnil)
 	return w
 }
@@ -227,13 +233,13 @@ func allFaultCases(tier string) []faultCase {
 			if f.id == "zerodiv" && p.id == "forstep" {
 				continue // a symbolic zero step makes the 10000-iteration cut-off loop symbolic: outside the bound
 			}
-			if tier != "thorough" && !(p.id == "assign" || p.id == "if" || p.id == "return" || p.id == "conc" || f.id == "zerodiv" || f.id == "ifaceadd" || f.id == "boom" || f.id == "index") {
+			if tier != "thorough" && !(p.id == "assign" || p.id == "if" || p.id == "return" || strings.HasPrefix(p.id, "conc") || f.id == "zerodiv" || f.id == "ifaceadd" || f.id == "boom" || f.id == "index") {
 				continue // quick: every fault at four positions, four faults at every position
 			}
 			stmt := strings.Replace(tpl, "%E", f.expr+"§", 1)
 			text, line, from, to := faultRule(stmt)
 			must := p.mustCite || f.class == "arithmetic" || f.class == "compare" || f.class == "logic" || f.class == "call"
-			out = append(out, faultCase{id: f.id + "_" + p.id, text: text, healthy: f.healthy, line: line, from: from, to: to, mustCite: must, isConc: p.id == "conc", class: f.class})
+			out = append(out, faultCase{id: f.id + "_" + p.id, text: text, healthy: f.healthy, line: line, from: from, to: to, mustCite: must, isConc: strings.HasPrefix(p.id, "conc"), class: f.class})
 		}
 	}
 	for _, s := range stmtFaults {
